@@ -9,14 +9,19 @@ export GOFLAGS=-mod=mod GOPROXY=off GOSUMDB=off GOTOOLCHAIN=local
 jobs="${1:-4}"
 list=$(mktemp)
 for p in selftest/mutants/*.patch; do b=$(basename "$p"); echo "fail ${b:0:3} $PWD/$p" >> "$list"; done
-for d in seeded/*/; do b=$(basename "$d"); echo "fail ${b:0:3} $PWD/${d}patch.diff" >> "$list"; done
+for d in seeded/*/; do b=$(basename "$d"); want=fail
+  # a seed whose meta.json says it is NOT detected (with the reason) is a documented limit, not a regression
+  if grep -q '"detected_by": *"NOT detected' "${d}meta.json" 2>/dev/null; then want=miss; fi
+  echo "$want ${b:0:3} $PWD/${d}patch.diff" >> "$list"; done
 for p in selftest/benign/*.patch; do [ -e "$p" ] || continue; b=$(basename "$p"); echo "pass ${b:0:3} $PWD/$p" >> "$list"; done
 run_one() {
   want="$1"; id="$2"; patch="$3"
   out=$(timeout 1200 tools/mutant_run.sh "$patch" "$id" 2>&1); code=$?
   vio=$(echo "$out" | grep -c '^VIOLATION')
   first=$(echo "$out" | grep '^VIOLATION' | head -1 | sed 's/.*obligation=//' | cut -c1-90)
-  if [ "$want" = fail ]; then
+  if [ "$want" = miss ]; then
+    if [ $code -eq 1 ] && [ $vio -gt 0 ]; then echo "OK   caught-after-all  $id $(basename $(dirname $patch))/$(basename $patch)  [$first]"; else echo "OK   known-miss  $id $(basename $(dirname $patch))/$(basename $patch)  (documented in its meta.json)"; fi
+  elif [ "$want" = fail ]; then
     if [ $code -eq 1 ] && [ $vio -gt 0 ]; then echo "OK   caught  $id $(basename $(dirname $patch))/$(basename $patch)  [$first]"; else echo "BAD  MISSED  $id $patch (exit $code)"; fi
   else
     if [ $code -eq 0 ] && [ $vio -eq 0 ]; then echo "OK   quiet   $id $(basename $patch)"; else echo "BAD  ALARM   $id $patch (exit $code) [$first]"; fi
